@@ -157,7 +157,16 @@ def run_case(case):
                 wrap_ok = (wrap_ok[0], wrap_ok[1], iv)
             return lambda: arr.__setitem__(key, arg)
         if kind in ("array_wrong_length", "array_wrong_shape", "item_too_large"):
-            arrs = [(pp, s) for pp, s in array_paths(spec, model) if pp and pp[-1][0] != "d"]
+            allarrs = array_paths(spec, model)
+            arrs = [(pp, s) for pp, s in allarrs if pp and pp[-1][0] != "d"]
+            if kind == "array_wrong_length" and mu["far"] % 2 == 1:
+                # a static-shape array that is the target of a Ref slot: data of another length assigned TO THE SLOT cannot
+                # become a new target; the slot must keep denoting the old one
+                viaref = [(pp[:-1], s) for pp, s in allarrs if len(pp) >= 2 and pp[-1][0] == "d" and all(d is not None for d in s["shape"])
+                          and mat.node_at(node, model, pp[:-1])[0].spec["k"] == "ref"]
+                if viaref:
+                    arrs = viaref
+                    labels.add("wrong_length_data_into_bound_ref_slot")
             if kind == "item_too_large":
                 arrs = [(pp, s) for pp, s in arrs if s["item"]["k"] == "string"]
             if kind == "array_wrong_shape":
@@ -167,6 +176,8 @@ def run_case(case):
             path, aspec = arrs[mu["li"] % len(arrs)]
             _, av = mat.model_get(spec, model, path)
             anode, _ = mat.node_at(node, model, path)
+            if anode.spec["k"] == "ref":
+                anode = anode.kids[0]
             shape = list(av["shape"])
             if kind == "array_wrong_length":
                 ax = mu["axis"] % len(shape)
@@ -369,10 +380,14 @@ def run_case(case):
                 apath = path[:-1]
                 _, av = mat.model_get(spec, model, apath)
                 if len(av["shape"]) == 1 and av["shape"][0] >= 2 and apath and apath[-1][0] != "d":
-                    new_items = [(1 if not ls["t"].startswith("Float") else 1.5)] * (av["shape"][0] - 1) + [[1, 2]]
+                    # the last item cannot be stored: a sequence, or something numpy refuses with another exception type
+                    # (None -> TypeError, 2**70 -> OverflowError for integer kinds, a plain object -> TypeError)
+                    isfloat = ls["t"].startswith("Float")
+                    bad = [[1, 2], object() if isfloat else None, object() if isfloat else 2 ** 70][mu["far"] % 3]
+                    new_items = [(1 if not isfloat else 1.5)] * (av["shape"][0] - 1) + [bad]
                     parent = mat.obj_get(obj, node, apath[:-1])
                     applied = True
-                    labels.add("sequence_as_last_item_of_whole_update")
+                    labels.add("sequence_as_last_item_of_whole_update" if mu["far"] % 3 == 0 else "unstorable_last_item_of_whole_update")
                     return lambda: mat.obj_set(parent[0], parent[1], apath[-1:], new_items)
             parent = mat.obj_get(obj, node, path[:-1])
             applied = True
